@@ -78,7 +78,7 @@ class SwiftHohenbergPDE(PDEBase):
         return (
             f"{expr_prod(self.rate - self.kc2**2, 'c')} - c³"
             f" + {expr_prod(self.delta, 'c²')}"
-            f" - ∇²({expr_prod(2 * self.kc2, 'c')} + ∇²c)"
+            f" - {expr_prod(2 * self.kc2, '∇²c')} - ∇²(∇²c)"
         )
 
     def evolution_rate(  # type: ignore
